@@ -11,9 +11,9 @@ def first_divergence(rec, lean):
     for k, (l, outs) in enumerate(rec.outputs):
         seg = lean[pos:pos + len(outs)]
         if seg != outs:
-            return dict(op_index=k, op=l, python=outs, lean=seg, script=rec.lines[:k + 1][-40:])
+            return dict(op_index=k, op=l, python=outs, lean=seg, script=rec.lines[:k + 1][-40:], full_script=rec.lines[:k + 1])
         pos += len(outs)
-    return dict(op_index=len(rec.outputs), op='<end>', python=[], lean=lean[pos:pos + 5], script=rec.lines[-40:])
+    return dict(op_index=len(rec.outputs), op='<end>', python=[], lean=lean[pos:pos + 5], script=rec.lines[-40:], full_script=list(rec.lines))
 
 
 def run(ctx, n_nominal, n_hostile, salt, n_lossy=0):
